@@ -86,4 +86,34 @@ theorem hashpad_current_junk (x : Src) (hx : x ∈ Gen.HashPad.all) :
   intro t part junk junk' hp h1 h2
   rw [h t _ h1, h t _ h2, hashPad_junk B L be part junk junk' t hp]
 
+/-- **source → standard**: on a pad buffer holding the stream tail (and anything behind it), `hash_pad` of every
+    context-layer file of the current tree hands the manager exactly the blocks of `tail ++ pad(n)`, the padding of
+    FIPS 180-4 §5.1 / RFC 1321 §3.1 / GB/T 32905 for a stream of `n < 2^61` bytes (`mdPad` is what the executable
+    standards in `Spec/` use). -/
+theorem hashpad_is_standard (x : Src) (hx : x ∈ Gen.HashPad.all) :
+    ∃ B L be, specOf x.alg = some (B, L, be) ∧
+      ∀ (n : Nat) (tail junk : Bytes), n < 2^61 → tail.length = n % B → (tail ++ junk).length = 2 * B →
+        ∃ t, (tail ++ mdPad B L be n).length = t * B ∧
+          result B x.prog n (tail ++ junk) = some (blocks B t (tail ++ mdPad B L be n)) := by
+  obtain ⟨B, L, be, hs, h⟩ := hashpad_current x hx
+  refine ⟨B, L, be, hs, ?_⟩
+  intro n tail junk hn ht hlen
+  have hn64 : n % 2^64 = n := Nat.mod_eq_of_lt (by omega)
+  have hcases : (B = 64 ∧ L = 8) ∨ (B = 128 ∧ L = 16 ∧ be = true) := by
+    unfold specOf at hs
+    split at hs <;> simp only [Option.some.injEq, Prod.mk.injEq, reduceCtorEq] at hs <;>
+      (obtain ⟨rfl, rfl, rfl⟩ := hs; simp)
+  have hjunk : hashPad B L be (tail ++ junk) n = hashPad B L be tail n := by
+    have hi0 : n % 2^64 &&& (B - 1) = tail.length := by
+      rcases hcases with ⟨rfl, _⟩ | ⟨rfl, _⟩
+      · rw [hn64, ht, show (64 - 1 : Nat) = 63 from rfl, and63]
+      · rw [hn64, ht, show (128 - 1 : Nat) = 127 from rfl, and127]
+    simp only [hashPad, hi0, List.take_left', List.take_length]
+  rw [h n _ hlen, hjunk]
+  rcases hcases with ⟨rfl, rfl⟩ | ⟨rfl, rfl, rfl⟩
+  · obtain ⟨t, h1, h2⟩ := hashPad64 be tail n hn ht
+    exact ⟨t, h1, by rw [hn64] at h2; rw [h2]⟩
+  · obtain ⟨t, h1, h2⟩ := hashPad128 tail n hn ht
+    exact ⟨t, h1, by rw [hn64] at h2; rw [h2]⟩
+
 end IsalVerif.GenProps.HashPad
